@@ -78,14 +78,17 @@ Fixpoint drop_while_digit (l : list N) : list N :=
   end.
 (** [s.rstrip('0123456789')] *)
 Definition rstrip_digits (s : str) : str := reverse (drop_while_digit (reverse s)).
-(** [str(i)] for a positive integer *)
-Fixpoint dec_aux (fuel : nat) (n : N) (acc : list N) : list N :=
-  match fuel with
-  | O => acc
-  | S f => let acc' := (48 + n mod 10)%N :: acc in
-           if (n / 10 =? 0)%N then acc' else dec_aux f (n / 10)%N acc'
+(** [str(i)] for a non-negative integer: the decimal digits of the standard library's [N.to_uint] as code points *)
+Fixpoint uint_codes (u : Decimal.uint) : list N :=
+  match u with
+  | Decimal.Nil => []
+  | Decimal.D0 r => 48%N :: uint_codes r | Decimal.D1 r => 49%N :: uint_codes r
+  | Decimal.D2 r => 50%N :: uint_codes r | Decimal.D3 r => 51%N :: uint_codes r
+  | Decimal.D4 r => 52%N :: uint_codes r | Decimal.D5 r => 53%N :: uint_codes r
+  | Decimal.D6 r => 54%N :: uint_codes r | Decimal.D7 r => 55%N :: uint_codes r
+  | Decimal.D8 r => 56%N :: uint_codes r | Decimal.D9 r => 57%N :: uint_codes r
   end.
-Definition dec (n : N) : str := dec_aux 40 n [].
+Definition dec (n : N) : str := uint_codes (N.to_uint n).
 Fixpoint is_prefix (p s : str) : bool :=
   match p, s with
   | [], _ => true
@@ -286,6 +289,12 @@ Section model.
     if ends_star nm then named (is_prefix (removelast nm))
     else named (λ k, bool_decide (k = nm)) ∪ default ∅ (by_class st !! nm).
 
+  (** *** Reading an index: [vmf.by_class[k]] / [vmf.by_target[k]] on a [defaultdict] leaves an empty set behind
+      when the key was absent.  No reader can tell the difference ([ix_get]), and the theorems show that nothing
+      else can either. *)
+  Definition probe {K} `{Countable K} (k : K) (m : gmap K (gset nat)) : gmap K (gset nat) :=
+    match m !! k with None => <[k := ∅]> m | Some _ => m end.
+
   (** *** Operations on one map *)
   Inductive op :=
   | NewEnt (l : kvs)                      (* Entity(vmf, keys) / Entity.parse / the target side of Entity.copy *)
@@ -294,7 +303,8 @@ Section model.
   | SetItem (e : nat) (k v : str) | DelItem (e : nat) (k : str) | DelItems (e : nat) (ks : list str)
   | Pop (e : nat) (k : str) | PopItem (e : nat) | SetDefault (e : nat) (k v : str)
   | Update (e : nat) (l : kvs) | Clear (e : nat) | MakeUnique (e : nat) (prefix : str)
-  | Export (ver : str).
+  | Export (ver : str)
+  | ProbeClass (k : str) | ProbeTarget (k : option str).   (* a reader evaluates vmf.by_class[k] / vmf.by_target[k] *)
 
   Definition step (o : op) (st : mstate) : mstate * nat :=
     match o with
@@ -313,6 +323,8 @@ Section model.
     | Clear e => clear e st
     | MakeUnique e p => make_unique e p st
     | Export ver => export ver st
+    | ProbeClass k => (upd_class (probe k) st, 0)
+    | ProbeTarget k => (upd_target (probe k) st, 0)
     end.
 
   Definition run (ops : list op) (st : mstate) : mstate := foldl (λ s o, (step o s).1) st ops.
